@@ -9,6 +9,11 @@ Lemma pval_eqb_refl p : pval_eqb p p = true.
 Proof. destruct p; cbn; [reflexivity | apply N.eqb_refl]. Qed.
 Lemma record_eqb_refl r : record_eqb r r = true.
 Proof. destruct r; cbn [record_eqb]; rewrite ?N.eqb_refl, ?pval_eqb_refl; reflexivity. Qed.
+Lemma record_eqb_upto_refl b r : record_eqb_upto b r r = true.
+Proof.
+  destruct r; cbn [record_eqb_upto]; try apply record_eqb_refl.
+  rewrite !N.eqb_refl, orb_true_r. reflexivity.
+Qed.
 Lemma list_eqb_refl {A} (e : A -> A -> bool) l : (forall x, e x x = true) -> list_eqb e l l = true.
 Proof. intros H. induction l as [|x l IH]; cbn [list_eqb]; [reflexivity | rewrite H, IH; reflexivity]. Qed.
 
@@ -30,7 +35,7 @@ Proof.
 Qed.
 
 Lemma exec_no_err_chunk sc : forall w, no_err_chunk sc = true ->
-  memN err_chunk (wbody (fst (exec sc w))) = memN err_chunk (wbody w).
+  memN err_chunk (wbody (fst (exec true sc w))) = memN err_chunk (wbody w).
 Proof.
   induction sc as [|a r IH]; intros w H; cbn [exec fst]; [reflexivity|].
   destruct a; cbn [no_err_chunk] in H.
@@ -39,10 +44,11 @@ Proof.
   - apply andb_prop in H. destruct H as [H1 H2]. rewrite IH by assumption.
     rewrite wbody_write, memN_app. cbn [memN]. apply negb_true_iff in H1.
     rewrite N.eqb_sym, H1. rewrite !orb_false_r. reflexivity.
+  - rewrite IH by assumption. unfold rw_flush, origin_write_header. destruct (wire_hdr w); reflexivity.
   - reflexivity.
 Qed.
 
-Lemma exec_wire_stable sc : forall w c, wire_hdr w = Some c -> wire_hdr (fst (exec sc w)) = Some c.
+Lemma exec_wire_stable sc : forall w c, wire_hdr w = Some c -> wire_hdr (fst (exec true sc w)) = Some c.
 Proof.
   induction sc as [|a r IH]; intros w c H; cbn [exec fst]; [assumption|].
   destruct a.
@@ -51,11 +57,12 @@ Proof.
   - apply IH. destruct w as [st wh wb]. cbn [wire_hdr] in H. subst wh.
     unfold rw_write, origin_write, origin_write_header, rw_write_header.
     cbn [status wire_hdr wbody]. destruct (st =? 0); reflexivity.
+  - apply IH. unfold rw_flush, origin_write_header. rewrite H. cbn. assumption.
   - assumption.
 Qed.
 
 Lemma exec_wire_500 sc : forall w, wire_hdr w = None -> status w = 0 ->
-  wire_hdr (fst (exec sc w)) = Some 500 -> has_hdr 500 sc = true.
+  wire_hdr (fst (exec true sc w)) = Some 500 -> has_hdr 500 sc = true.
 Proof.
   induction sc as [|a r IH]; intros w Hw Hs H; cbn [exec fst has_hdr] in *.
   - congruence.
@@ -67,15 +74,17 @@ Proof.
       * destruct w as [st wh wb]. cbn [wire_hdr] in Hw. subst wh. reflexivity.
     + rewrite (exec_wire_stable r (rw_write chunk w) 200) in H; [discriminate|].
       destruct w as [st wh wb]. cbn [wire_hdr status] in Hw, Hs. subst wh st. reflexivity.
+    + rewrite (exec_wire_stable r (rw_flush true w) 200) in H; [discriminate|].
+      destruct w as [st wh wb]. cbn [wire_hdr status] in Hw, Hs. subst wh st. reflexivity.
     + cbn [fst] in H. congruence.
 Qed.
 
 Lemma check_accepts_model thr rq sc :
   enabled thr LInfo = true -> codes_ok sc = true -> no_abort sc -> no_err_chunk sc = true ->
-  let r := relay total_render thr rq sc in
-  verdict_ok (check_case thr rq sc (escaped r) (wire r) (body r) (records r)) = true.
+  forall bs, let r := relay total_render thr rq sc in
+  verdict_ok (check_case thr rq sc (escaped r) (wire r) bs (body r) (records r)) = true.
 Proof.
-  intros Hi Hc Hna Hne r.
+  intros Hi Hc Hna Hne bs r.
   assert (Htot : forall v, total_render v <> None) by (intros v; discriminate).
   destruct (relay_info total_render thr rq sc Htot Hi Hc Hna) as (Hesc & H500 & Hsent & Hnot & Hrecs & Hlog).
   fold r in Hesc, H500, Hsent, Hnot, Hrecs, Hlog.
@@ -85,21 +94,22 @@ Proof.
   unfold verdict_ok, spec_ok, check_case.
   cbn [spec_noescape spec_500 spec_records model_ok]. fold r. rewrite Hscope, Hesc. cbn [negb orb].
   (* model part *)
-  rewrite N.eqb_refl, (list_eqb_refl N.eqb (body r) N.eqb_refl), (list_eqb_refl record_eqb (records r) record_eqb_refl).
-  cbn [Bool.eqb andb].
+  rewrite N.eqb_refl, (list_eqb_refl N.eqb (body r) N.eqb_refl),
+    (list_eqb_refl (record_eqb_upto (set_once sc)) (records r) (record_eqb_upto_refl _)).
+  rewrite orb_true_r. cbn [Bool.eqb andb].
   (* 500 part *)
   assert (G500 : (if panics_before_header sc
-                  then (wire r =? 500) && list_eqb N.eqb (body r) [err_chunk]
+                  then (wire r =? 500) && (negb bs || list_eqb N.eqb (body r) [err_chunk])
                   else negb (memN err_chunk (body r)) && (negb (wire r =? 500) || has_hdr 500 sc)) = true).
   { destruct (panics_before_header sc) eqn:Ep.
-    - destruct (Hsent (proj2 H500 eq_refl)) as [Hw Hb]. rewrite Hw, Hb. reflexivity.
+    - destruct (Hsent (proj2 H500 eq_refl)) as [Hw Hb]. rewrite Hw, Hb. cbn. apply orb_true_r.
     - assert (Hr : relay500 r = false).
       { destruct (relay500 r) eqn:E; [|reflexivity]. pose proof (proj1 H500 eq_refl). discriminate. }
       destruct (Hnot Hr) as [Hw Hb]. rewrite Hb.
       rewrite (exec_no_err_chunk sc rw0 Hne). cbn [rw0 wbody memN negb andb].
       destruct (wire r =? 500) eqn:E5; [|reflexivity]. cbn [negb orb].
       apply N.eqb_eq in E5. unfold wire in E5. rewrite Hw in E5.
-      destruct (wire_hdr (fst (exec sc rw0))) as [c|] eqn:Ew; [|discriminate].
+      destruct (wire_hdr (fst (exec true sc rw0))) as [c|] eqn:Ew; [|discriminate].
       subst c. apply (exec_wire_500 sc rw0); [reflexivity | reflexivity | assumption]. }
   rewrite G500.
   (* records part *)
